@@ -347,6 +347,12 @@ let check_tokens (cfg : econfig) (ops : eop list) (tr : tok list) : unit =
        | Some _ when List.exists (function TApi z -> zi z = -2 | _ -> false) seg ->
          bad (if on "C11" then "C11" else prop) "a background process made an adapter call that was not under the context handed out by its role scheduler"
        | _ -> ());
+    (* C11: Stop returns only after every process has shut down: afterwards no adapter is called (API=-3) and every receiver and
+       sender that was opened has been closed (API=-4); the harness appends these marks after the last operation *)
+    (if on "C11" then begin
+       if List.exists (function TApi z -> zi z = -3 | _ -> false) seg then bad "C11" "an adapter was called after Stop had returned";
+       if List.exists (function TApi z -> zi z = -4 | _ -> false) seg then bad "C11" "a receiver or sender was still open after Stop had returned"
+     end);
     (* C15: a failing delete function leaves the run RequestedDataDeleted: no write, no Ack *)
     (if on "C15" then begin
        let failed_delete = ref false in
